@@ -18,9 +18,9 @@ import (
 )
 
 type c11Op struct {
-	Kind  string `json:"k"` // put | alias | del | get
-	Key   int    `json:"key"`
-	Val   uint64 `json:"val,omitempty"` // put: fresh value id; alias: id of the aliased object
+	Kind string `json:"k"` // put | alias | del | get
+	Key  int    `json:"key"`
+	Val  uint64 `json:"val,omitempty"` // put: fresh value id; alias: id of the aliased object
 }
 
 type c11Input struct {
@@ -35,12 +35,20 @@ type sessObj interface {
 	intact() bool
 }
 
-type tSess struct{ s *tlcp.SessionState; want []byte; n uint64 }
-type dSess struct{ s *dtlcp.SessionState; want []byte; n uint64 }
+type tSess struct {
+	s    *tlcp.SessionState
+	want []byte
+	n    uint64
+}
+type dSess struct {
+	s    *dtlcp.SessionState
+	want []byte
+	n    uint64
+}
 
-func (t *tSess) id() uint64  { return t.n }
+func (t *tSess) id() uint64   { return t.n }
 func (t *tSess) intact() bool { return bytes.Equal(t.s.VerifMaster(), t.want) }
-func (t *dSess) id() uint64  { return t.n }
+func (t *dSess) id() uint64   { return t.n }
 func (t *dSess) intact() bool { return bytes.Equal(t.s.VerifMaster(), t.want) }
 
 func masterFor(n uint64) []byte {
@@ -61,9 +69,9 @@ func idFromBytes(b []byte) (uint64, bool) {
 }
 
 const (
-	c11NilOK    = 999999 // Get returned (nil, true)
-	c11Corrupt  = 1000000 // added to an id whose master secret is no longer intact
-	c11BadID    = 999998
+	c11NilOK   = 999999  // Get returned (nil, true)
+	c11Corrupt = 1000000 // added to an id whose master secret is no longer intact
+	c11BadID   = 999998
 )
 
 func keyName(k int) string {
@@ -92,8 +100,8 @@ func c11Run(in c11Input) (res []emit_opt, harm int, harmWhat string) {
 		c := dtlcp.NewLRUSessionCache(in.Cap)
 		putD, getD = c.Put, c.Get
 	}
-	objs := map[uint64]*held{}      // objects the caller created, by value id
-	var gotten []sessObj            // objects handed out by Get
+	objs := map[uint64]*held{} // objects the caller created, by value id
+	var gotten []sessObj       // objects handed out by Get
 	mkT := func(n uint64) *tlcp.SessionState {
 		return tlcp.VerifNewSession(idBytes(n), masterFor(n), 0x0101, 0xe013)
 	}
@@ -268,7 +276,7 @@ func c11AddCase(out *emit.Out, scenario string, in c11Input) {
 	_ = what
 	out.Add(emit.Case{Scenario: scenario + "/" + in.Stack, Trivial: c11Trivial(in), Input: in,
 		Observed: map[string]interface{}{"results": obs, "harm": harm, "harm_what": what},
-		Coq: c11Coq(in, res, harm)})
+		Coq:      c11Coq(in, res, harm)})
 }
 
 func c11Enumerate(depth int, cur []c11Op, next uint64, f func([]c11Op)) {
